@@ -6,7 +6,9 @@ import random
 ID = "C07"
 TITLE = "object generation yields exactly the objects of the class, each once"
 COQ_PROPS = "Props/C07.v"
-COQ_RUN = ("Count.ParseTreesRun", "run_c07p")   # = run_c07 + the parse-tree queries 5/6 (C07_run_extends)
+COQ_RUN = ("Count.ParseTreesRun", "run_c07d")   # = run_c07p (run_c07 + the parse-tree queries 5/6, C07_run_extends)
+#                                                 + ONE appended field [rank_ok, closed_ok, depth]: the decidable
+#                                                 hypotheses of the end-to-end theorems decided on the case
 GEN_TARGETS = ["compositions"]
 N = {"quick": 2000, "thorough": 24000}
 RULE = (
@@ -58,7 +60,13 @@ LEVEL_TEXT = (
     "one-rule-per-class specification with a productivity certificate, get_objects through the level-by-level caches "
     "terminates from every consistent cache state, keeps the caches consistent and "
     "generate_objects_of_size returns a duplicate-free permutation of the class's objects for every size and "
-    "parameter tuple (C07_generate_exact, C07_generate_perm); EquivalenceRule, ReverseRule of an equivalence, "
+    "parameter tuple (C07_generate_exact, C07_generate_perm; the certificate is a free function in these theorems - "
+    "C07_rank_decided / C07_closed_decided / C07_generate_exact_decided: the extracted run DECIDES on the descriptors of "
+    "every compared case that a certificate exists for all sizes (sufficient criterion rankb: minima >= 0 and the "
+    "same-size class graph - union children, product children whose siblings' minima add up to 0 - is acyclic) and that "
+    "the specification is closed, prints the verdict as an appended field which the harness recomputes independently, "
+    "and extra_checks counts the cases on which the theorem's decidable hypotheses hold: every non-skipped case of "
+    "seeds 0-2); EquivalenceRule, ReverseRule of an equivalence, "
     "EquivalenceRule(ReverseRule) and EquivalencePathRule round-trip with parts in the right classes "
     "(C07_roundtrip_*: one-way `link`s, for an original rule whose constructor is a DisjointUnion satisfying "
     "union_contract and whose other children are empty; the path theorem assumes a chain of links); "
@@ -117,7 +125,11 @@ LEVEL_NOTE = (
     "C07_count_eq_length. C07_count_eq_length treats a Counter as a dictionary (distinct keys: keys_ok) and needs the "
     "verification strategies' contract get_terms[p] = len(get_objects[p]) (C07_count_eq_length_needs_verified_counts "
     "shows the count changes without it). C07_reverse_flag assumes truthful is_empty answers. "
-    "Productivity enters as a rank certificate over the actual reads, not derived from the forest analysis (C03/C11). "
+    "Productivity enters as a rank certificate over the actual reads, not derived from the forest analysis (C03/C11); "
+    "its EXISTENCE is decided per case by the model (Count/ParseTreesDeciders.v rankb, sound by rankb_sound, not "
+    "complete: a maximum size that forbids a same-size read is ignored) and by the harness (depth-first search), the "
+    "two verdicts compared on every case; on a real specification whose generation terminated a verdict 0 is an oracle "
+    "failure, on the rule stream it is only counted. The bijection contracts remain undecided hypotheses. "
     "Complement/Quotient rules (non-equivalence reverse rules) do not implement get_sub_objects; specifications "
     "containing them are outside the property and are skipped (counted in the evidence)."
 )
@@ -145,7 +157,9 @@ ASSUMPTIONS = [
     "C07_objects_are_parse_trees: forward maps given as functions; every verification rule is an atom (one object) or "
     "empty; sizes are >= 0",
     "CartesianProduct: min/max sizes are true bounds, minima >= 0, at least one child (bounds_ok)",
-    "specification closed, one rule per class, productive (rank certificate over the reads of every level)",
+    "specification closed, one rule per class, productive (rank certificate over the reads of every level) - closedness "
+    "and the existence of a certificate are decided on every compared case by run_c07d and recomputed by the harness "
+    "(C07_closed_decided, C07_rank_decided; extra_checks `covered_by_theorem`: all non-skipped cases on seeds 0-2)",
     "sizes n >= 0 (get_objects(-1) indexes the cache from the end in Python; outside the property)",
     "C07_count_eq_length: a verification strategy's get_terms(class, n) is a Counter with get_terms[p] == "
     "len(get_objects(class, n)[p]) for every p (checked per case: get_terms of every rule against brute force)",
@@ -323,6 +337,63 @@ def build(case):
     return w
 
 
+class _EncShim:
+    """stands for the words_objs module inside _rule_desc / _form / _dict when the objects are not words"""
+
+    def __init__(self, enc):
+        self.enc = enc
+
+    def enc_tuple(self, t):
+        return [-1 if x is None else self.enc(x) for x in t]
+
+
+def descriptors(w, n, enc=None):
+    """[_rule_desc(w, lab, n) for every label]; `enc` replaces words_objs.enc for the objects of other universes
+    (c12.py: grammar objects, interned).  Used by c08.py / c12.py to build the C07 descriptors of THEIR specification."""
+    global _U  # pylint: disable=global-statement
+    if enc is None:
+        return [_rule_desc(w, lab, n) for lab in range(len(w.rules))]
+    saved, shim = _U, _EncShim(enc)
+    _U = lambda: shim  # noqa: E731
+    try:
+        return [_rule_desc(w, lab, n) for lab in range(len(w.rules))]
+    finally:
+        _U = saved
+
+
+def world_of_spec(spec, order=None, w=None, mutate=True):
+    """the World (rules, classes, children labels) of a specification.  Labels: breadth first from the root (label 0),
+    or the positions in `order` (a list of all the classes met) when given - c08.py / c12.py pass THEIR labelling, so
+    that _rule_desc builds the C07 descriptors of the same specification under the same labels (`describes` /
+    `idescribes` are then decided on the two descriptor lists)."""
+    w = w or World()
+    w.spec = spec
+    if order is None:
+        todo, order = [spec.root], [spec.root]
+        seen = {spec.root: 0}
+        while todo:
+            c = todo.pop(0)
+            for ch in spec.get_rule(c).children:
+                if ch not in seen:
+                    seen[ch] = len(order)
+                    order.append(ch)
+                    todo.append(ch)
+    seen = {c: i for i, c in enumerate(order)}
+    for c in order:
+        if mutate or c in spec.rules_dict:
+            r = spec.get_rule(c)
+        else:
+            # get_rule would STORE an EmptyStrategy rule for an empty class without one: other plugins must not have
+            # their specification changed by describing it
+            from comb_spec_searcher.strategies.strategy import EmptyStrategy
+
+            r = EmptyStrategy()(c)
+        w.rules.append(r)
+        w.classes.append(c)
+        w.kids.append([seen[ch] for ch in r.children])
+    return w
+
+
 def _build(case):
     from comb_spec_searcher import CombinatorialSpecificationSearcher
     from comb_spec_searcher.exception import SpecificationNotFound, StrategyDoesNotApply
@@ -345,21 +416,7 @@ def _build(case):
                     spec = _X().searcher(cfg).auto_search(smallest=bool(cfg.get("smallest")))
         except (SpecificationNotFound, AssertionError):
             return None
-        w.spec = spec
-        todo, seen = [spec.root], {spec.root: 0}
-        order = [spec.root]
-        while todo:
-            c = todo.pop(0)
-            for ch in spec.get_rule(c).children:
-                if ch not in seen:
-                    seen[ch] = len(order)
-                    order.append(ch)
-                    todo.append(ch)
-        for c in order:
-            r = spec.get_rule(c)
-            w.rules.append(r)
-            w.classes.append(c)
-            w.kids.append([seen[ch] for ch in r.children])
+        world_of_spec(spec, w=w)
     else:
         try:
             r = _build_rule(case)
@@ -567,7 +624,86 @@ def _fresh(w):
             r.terms_cache.data = []
 
 
+# ------------------------------------------------------------------ decidable hypotheses of the theorems
+def _shape(w, lab):
+    """kind, children labels, minimum and maximum sizes of one rule: the part of _rule_desc the deciders read (same
+    branches, same attributes of the same world; the forms are not tabulated)"""
+    from comb_spec_searcher.strategies.constructor import CartesianProduct
+    from comb_spec_searcher.strategies.rule import VerificationRule
+
+    r = w.rules[lab]
+    if r is None or isinstance(r, VerificationRule):
+        return [2]
+    if w.mapsonly:
+        return [0, w.kids[lab]]
+    cons = r.constructor
+    if isinstance(cons, CartesianProduct):
+        return [1, w.kids[lab], list(cons.min_sizes), [-1 if x is None else x for x in cons.max_sizes]]
+    return [0, w.kids[lab]]
+
+
+def rank_verdict(shapes):
+    """[rank_ok, closed_ok, depth] - an independent computation of what Count/ParseTreesDeciders.v rankb / closedb
+    decide (Count/ParseTreesRun.v rank_verdict prints): the same-size class graph (children of a union; children of
+    a product whose siblings' minimum sizes add up to 0) is acyclic and every product has as many minima / maxima as
+    children, minima >= 0; every child label is a listed class; depth = the longest path in that graph (a child
+    outside the list counts as a sink), 0 without certificate.  Here by depth-first search, in Coq by L+1 rounds of
+    relaxation followed by a check: the core compares the two verdicts on every case."""
+    L = len(shapes)
+    succ, shape_ok, closed = [], True, True
+    for d in shapes:
+        if d[0] == 0:
+            ks = list(d[1])
+        elif d[0] == 1:
+            kids, mins, maxs = d[1], d[2], d[3]
+            if len(mins) != len(kids) or len(maxs) != len(kids) or any(m < 0 for m in mins):
+                shape_ok = False
+            ks = [k for k, mn in zip(kids, mins) if sum(mins) - mn < 1]
+        else:
+            ks = []
+        if d[0] in (0, 1) and any(k >= L for k in d[1]):
+            closed = False
+        succ.append(ks)
+    state, depth = [0] * L, [0] * L
+
+    def visit(c):   # returns False on a cycle
+        if state[c] == 1:
+            return False
+        if state[c] == 2:
+            return True
+        state[c] = 1
+        best = -1
+        for k in succ[c]:
+            if k < L:
+                if not visit(k):
+                    return False
+                best = max(best, depth[k])
+            else:
+                best = max(best, 0)
+        depth[c] = best + 1
+        state[c] = 2
+        return True
+
+    acyclic = all(visit(c) for c in range(L))
+    ok = shape_ok and acyclic
+    return [int(ok), int(closed), max(depth, default=0) if ok else 0]
+
+
+def _verdict(w):
+    if w is None or w.unsupported:
+        return rank_verdict([])     # encode sends no descriptors
+    return rank_verdict([_shape(w, lab) for lab in range(len(w.rules))])
+
+
 def impl(case):
+    res = _impl(case)
+    # the appended field of run_c07d, recomputed here from the same world: compared by the core on every case
+    res["verdict"] = _verdict(build(case))
+    res["out"] = list(res["out"]) + [res["verdict"]]
+    return res
+
+
+def _impl(case):
     U = _U()
     w = build(case)
     if w is None:
@@ -811,6 +947,12 @@ def oracle(case, res):
                     return "product rule %d: sizes of the parts do not add up" % lab
             elif some != 1:
                 return "union rule %d: %d parts are not None" % (lab, some)
+    # the decidable hypotheses of the end-to-end theorems must hold on every REAL specification whose generation
+    # terminated (a returned specification is productive and closed): a failing verdict there is a failure
+    v = res.get("verdict")
+    if case["kind"] == "spec" and v is not None and [-9] not in res["out"] and not (v[0] and v[1]):
+        return "specification whose generation terminated, but no %s (verdict %r)" % (
+            "rank certificate found by rankb" if not v[0] else "closedness", v)
     # contract evidence for the theorems' hypotheses (bounds_ok)
     n, _ = _limits(w, case)
     for lab, r in enumerate(w.rules):
@@ -941,6 +1083,42 @@ def key(case):
     return json.dumps(c, sort_keys=True)
 
 
+_DECIDED = "C07_generate_exact_decided"   # = C07_generate_exact with rank certificate and closed decided by the run
+MIN_COVERED = 0.98                        # measured 1.00 (every non-skipped case) on seeds 0, 1, 2, quick tier
+
+
+def _coverage_tags(res):
+    """which decidable hypotheses of the end-to-end theorems hold on this case (the verdict the extracted run prints,
+    equal to the harness's own or the case is a mismatch)"""
+    v = res.get("verdict")
+    if v is None:
+        return []
+    missing = [h for h, b in (("rank certificate", v[0]), ("closed", v[1])) if not b]
+    if missing:
+        return ["thm:%s:not_covered(%s)" % (_DECIDED, " + ".join(missing))]
+    return ["thm:%s:covered" % _DECIDED, "rank depth %s" % ("0-2" if v[2] <= 2 else "3-5" if v[2] <= 5 else ">=6")]
+
+
+def extra_checks(ctx):
+    """how many of the compared cases satisfy the decidable hypotheses (rank certificate, closed) of
+    C07_generate_exact / _perm / C07_count_* / C07_objects_are_parse_trees; fails when the generator drifts away"""
+    n = k = 0
+    for res, _why, _nt in ctx.impl_res:
+        v = res.get("verdict")
+        if v is None or res.get("skip") or "exception" in res:
+            continue
+        n += 1
+        k += bool(v[0] and v[1])
+    frac = k / n if n else 1.0
+    return [
+        ("covered_by_theorem %s: %d of %d" % (_DECIDED, k, n), n == 0 or frac >= MIN_COVERED,
+         "cases of the retained batch (skipped ones excluded) on which the extracted run AND the harness decide that a "
+         "rank certificate exists for all sizes (rankb, C07_rank_decided) and that the specification is closed "
+         "(closedb, C07_closed_decided); the bijection contracts are not decidable from the descriptors and remain "
+         "hypotheses (evidence: the kind-2 round trips and the oracle); minimum fraction %.2f" % MIN_COVERED),
+    ]
+
+
 def classify(case, res):
     from comb_spec_searcher.strategies.rule import EquivalencePathRule, EquivalenceRule, ReverseRule
 
@@ -952,6 +1130,7 @@ def classify(case, res):
     if res.get("broken"):
         return tags + ["returned specification has a rule without constructor"]
     w = build(case)
+    tags += _coverage_tags(res)
     if case["kind"] == "spec":
         tags.append("universe=" + case["cfg"]["universe"])
         tags.append("ruledb=" + str(case["cfg"]["ruledb"]))
